@@ -145,6 +145,10 @@ class ProbeRunner(SimulationRunner):
         sr.add_new_result("ratio", Result.RATIOTYPE, value_fn(self.spec, vidx, uid), 4)
         sr.add_result(Result.create("last", Result.MISCTYPE, uid, accumulate_values=True))
         # a vector-valued sum reported from a buffer the iteration refills every time
+        # (C17 borrows this runner and switches the vector off: the library's own ==
+        #  of result objects is only defined for scalar values)
+        if not getattr(self.spec, "vector_result", True):
+            return sr
         if not hasattr(self, "_vecbuf"):
             self._vecbuf = np.zeros(2, dtype=np.int64)
         self._vecbuf[:] = (uid, 1)
